@@ -186,3 +186,55 @@ def trace_to_sched(trace, sid=0):
     """counterexample trace [(hdr, state)] of a Net spec -> schedule"""
     steps = [act_to_step(s["act"]) for _h, s in trace if s.get("act", {}).get("name") not in (None, "Init")]
     return {"id": sid, "steps": steps}
+
+
+C01_INVS = {"Agreement", "DecisionValid", "DecisionCertified", "StoreMatches"}
+C02_INVS = {"NoEquivocation", "PrecommitJustified", "LockRespected"}
+C03_INVS = {"BoundedRounds", "Termination"}
+
+
+def solo_act_to_steps(a, me):
+    a = to_json(a)
+    if a["name"] == "EnvPair":
+        return [{"name": "Deliver", "n": me, "m": a["m"], "k": "-"}, {"name": "Deliver", "n": me, "m": a["m2"], "k": "-"}]
+    if a["name"] in ("Deliver", "ProcessInternal", "Timeout"):
+        return [{"name": a["name"], "n": me, "m": a["m"], "k": a["k"]}]
+    return []
+
+
+def solo_sim_to_scheds(prefix_dir, prefix, me):
+    from vlib import tlaparse
+    scheds = []
+    files = sorted(f for f in os.listdir(prefix_dir) if f.startswith(prefix + "_"))
+    for k, f in enumerate(files):
+        with open(os.path.join(prefix_dir, f)) as fh:
+            beh = tlaparse.parse_behaviour_text(fh.read())
+        steps = []
+        for _h, s in beh:
+            steps += solo_act_to_steps(s["act"], me)
+        if steps:
+            scheds.append({"id": k, "steps": steps})
+    return scheds
+
+
+def solo_mc(ctx, name, info, me, maxround, envvalues, weak=(), view=True, invariants=None):
+    adv = [n for n in info["names"] if n != me]
+    d = ctx.spec_copy()
+    names = info["names"]
+    pw = " [] ".join('v = "%s" -> %d' % (n, info["powers"][n]) for n in names)
+    ps = ", ".join('"%s"' % p for p in info["proposers"][:maxround + 1])
+    with open(os.path.join(d, name + ".tla"), "w") as f:
+        f.write("---- MODULE %s ----\nEXTENDS TMConsensusSolo\nPW == [v \\in Vals |-> CASE %s]\nPS == <<%s>>\nADV == <<%s>>\n====\n" % (
+            name, pw, ps, ", ".join('"%s"' % a for a in adv)))
+    invs = invariants if invariants is not None else ["NoEquivocation", "PrecommitJustified", "LockRespected", "ProposalCarriesValid"]
+    lines = ["CONSTANTS", "  Vals = %s" % tla_set(names), '  Me = "%s"' % me, "  Adv <- ADV", "  PowerOf <- PW",
+             "  ProposerSeq <- PS", "  MaxRound = %d" % maxround, '  InvalidValues = {"ZX"}',
+             "  EnvValues = %s" % tla_set(envvalues), "  Weak = %s" % tla_set(weak),
+             "INIT Init", "NEXT Next", "CHECK_DEADLOCK FALSE"]
+    if invs:
+        lines.append("INVARIANTS " + " ".join(invs))
+    if view:
+        lines.append("VIEW View")
+    with open(os.path.join(d, name + ".cfg"), "w") as f:
+        f.write("\n".join(lines) + "\n")
+    return name
